@@ -14,7 +14,9 @@ ASSUMPTIONS = ['how & ranks against + and * is not stated: & operands are atoms,
                'a zero divisor under a comparison or & is C08\'s subject: such cases are excluded and counted',
                'reference = native evaluation of the generating tree (Python int/float operators in tree order, so results are bit-identical)']
 
-VARS = {'v_a': 3, 'v_b': 7, 'v_c': 0.5, 'v_d': 12, 'v_e': 2.25, 'v_f': 1, 'v_one': 1, 'v_zero': 0, 'v_txt': 'xyz'}
+from ..values import SubInt, SubFloat
+VARS = {'v_a': 3, 'v_b': 7, 'v_c': 0.5, 'v_d': 12, 'v_e': 2.25, 'v_f': 1, 'v_one': 1, 'v_zero': 0, 'v_txt': 'xyz',
+        'V_A': 1000, 'V_b': 70, 'v_g': SubInt(5), 'v_h': SubFloat(0.75)}        # names that differ from another in the case of a letter only are other names; v_g, v_h: host numbers of classes derived from int / float
 CELLS = {'B2': 5, 'C3': 11, 'D4': 0.25, 'AA10': 4}
 def _strict(f):
     def g(*a):
@@ -29,11 +31,11 @@ FUNCS = {'SUM': _strict(lambda *a: sum(a)), 'ABS': _strict(lambda x: abs(x)), 'I
 
 int_leaf = st.one_of(st.sampled_from(['2', '3', '5', '7', '11', '13', '17', '19', '23', '1', '4', '6', '8', '9', '10', '100']).map(lambda s: ['num', s]),
                      st.sampled_from(['9007199254740993', '9007199254740992', '12345678901234567891', '12345678901234567890', '007', '18014398509481985']).map(lambda s: ['num', s]),
-                     st.sampled_from(['v_a', 'v_b', 'v_d', 'v_f']).map(lambda n: ['var', n]),
+                     st.sampled_from(['v_a', 'v_b', 'v_d', 'v_f', 'V_A', 'V_b', 'v_g']).map(lambda n: ['var', n]),
                      st.sampled_from(['B2', 'C3', 'AA10', '$B$2', 'c3']).map(lambda n: ['cell', n]))
 leaf = st.one_of(int_leaf, int_leaf,
                  st.sampled_from(['0.5', '0.25', '0.75', '1.5', '2.25', '0.125', '.5', '10.0', '.05', '.007', '.0625', '1.05', '0.0078125', '.50']).map(lambda s: ['dec', s]),
-                 st.sampled_from(['v_c', 'v_e']).map(lambda n: ['var', n]), st.just(['cell', 'D4']))
+                 st.sampled_from(['v_c', 'v_e', 'v_h']).map(lambda n: ['var', n]), st.just(['cell', 'D4']))
 
 EV_TEXTS = {'1+1': 2, '2*3': 6, '10-3-2': 5, '7': 7, '(1+2)*3': 9, '8/2/2': 2.0, '-3*2': -6}
 ev_leaf = st.sampled_from(sorted(EV_TEXTS)).map(lambda t: ['call', 'EV', [['str', t, '"']]])      # a custom function that evaluates its text argument on the same parser
